@@ -104,6 +104,8 @@ class TraceFn:
             return {"sign_pos": np.sign(state.pos).astype(np.int64)}
         if self.kind == "odd_keys":  # keys that differ only in characters that are not valid in file names
             return {"x[0]": state.pos[0], "x0": 2.0 * state.pos[0], "a/b": -state.pos[0], "ab": 3.0 * state.pos[0]}
+        if self.kind == "pos_twice":  # same key as the "pos" trace function: the last function listed must win
+            return {"pos": 2.0 * state.pos, "extra": float(state.pos[0])}
         raise ValueError(self.kind)
 
     def apply_logged(self, rec):
@@ -119,6 +121,8 @@ class TraceFn:
             return {"pos": pos, "hamiltonian": rec["h"]}
         if self.kind == "odd_keys":
             return {"x[0]": pos[0], "x0": 2.0 * pos[0], "a/b": -pos[0], "ab": 3.0 * pos[0]}
+        if self.kind == "pos_twice":
+            return {"pos": 2.0 * pos, "extra": float(pos[0])}
         return {"sign_pos": np.sign(pos).astype(np.int64)}
 
 
@@ -307,7 +311,12 @@ def build(cfg: dict, logdir: str):
             adapters.append(mici.adapters.OnlineVarianceMetricAdapter())
         elif a == "cov":
             adapters.append(mici.adapters.OnlineCovarianceMetricAdapter())
-    if cfg.get("front_end", "hmc") == "mcmc":
+    if cfg.get("front_end", "hmc") == "mcmc" and cfg.get("momentum_adapters"):
+        # adapters on two transitions: the momentum transition's list is empty in some stages of a windowed stager
+        mom_adapters = [mici.adapters.OnlineVarianceMetricAdapter() if a == "var" else mici.adapters.OnlineCovarianceMetricAdapter()
+                        for a in cfg["momentum_adapters"]]
+        kw["adapters"] = {"momentum_transition": mom_adapters, "integration_transition": adapters}
+    elif cfg.get("front_end", "hmc") == "mcmc":
         kw["adapters"] = {"integration_transition": adapters} if adapters else None
     else:
         kw["adapters"] = adapters if adapters else None
